@@ -272,6 +272,25 @@ Stretch(m, s) == [m EXCEPT !.v = [i \in 1..Len(m.v) |-> Stretch3(s, m.v[i])]]
 Destretch(s, V) == [i \in 1..Len(V) |-> <<V[i][1] \div s[1], V[i][2] \div s[2], V[i][3] \div s[3]>>]
 StretchExact(s, V) == s[1] > 0 /\ s[2] > 0 /\ s[3] > 0 /\ \A i \in 1..Len(V) : Stretch3(s, Destretch(s, V)[i]) = V[i]
 
+\* ------------------------------------------------------------------ life cycle of one object (use, then normalise, then use)
+\* An object built WITHOUT normalisation (reorient_faces = skip) keeps the windings it was given; it may be used (field
+\* computed, mesh array read), checked, and normalised later by reorient_faces().  Every use after the normalisation must
+\* see what an object normalised at construction shows: all faces outward - in `faces` and in the array the field is
+\* computed from - and the field of the base body, whatever happened before.
+LifeChecks == {"check_open", "check_disconnected", "check_selfintersecting"}
+LifeOps == LifeChecks \cup {"use", "reorient"}
+ObjInit(F) == [faces |-> F, reoriented |-> FALSE]
+ObjApply(V, o, op) == IF op = "reorient" THEN [faces |-> RefOrient(V, o.faces), reoriented |-> TRUE] ELSE o
+RECURSIVE ObjRun(_, _, _, _)
+ObjRun(V, o, h, k) == IF k > Len(h) THEN o ELSE ObjRun(V, ObjApply(V, o, h[k]), h, k + 1)
+NoRep(q) == \A i, j \in 1..Len(q) : i # j => q[i] # q[j]
+\* the histories: any order of distinct uses/checks (at most maxPre of them), the normalisation, then a use (directly, after
+\* another check, or twice)
+LifeHistories(maxPre) ==
+  {pre \o <<"reorient">> \o post :
+     pre \in {q \in UNION {[1..k -> LifeChecks \cup {"use"}] : k \in 0..maxPre} : NoRep(q)},
+     post \in {<<"use">>, <<"check_selfintersecting", "use">>, <<"use", "use">>}}
+
 \* ------------------------------------------------------------------ base meshes (faces outward)
 Tetra == [v |-> <<<<0, 0, 0>>, <<2, 0, 0>>, <<0, 2, 0>>, <<0, 0, 2>>>>,
           f |-> <<<<1, 3, 2>>, <<1, 2, 4>>, <<2, 3, 4>>, <<1, 4, 3>>>>]
